@@ -7,35 +7,36 @@ import re
 from .. import kj, smlib
 from ..check import VERIF, unjson
 from ..kj import scratch
+from translator import csmini
 
 LEVEL = "proof"
 
 MANIFEST = {
-    "technique": "Coq proof (per-row token expansion from the template's PER_GUARDTRANSITION shape, brace-parser lemma, execution vs the table interpreter's step) + tokenising the real generated classes",
-    "text": ("Theorems C10_handlers (for every table, state, event, guard oracle: the handler body has matching braces and executes exactly the interpreter's "
-             "step for the rows of (state,event) in table order; state object and estate enum agree afterwards), C10_handlers_listed_only, C10_state_classes "
-             "(class for every state incl. target-only ones, and for nothing else), C10_context_decls (every guard, (action,event) signature, hook, event class with members, Is/Trigger method, enum entry, base handler and state class a row needs is declared exactly once, as (kind, name, params) triples of Model/Decls.v over Gen/DeclTmpl.v). Tie: the PER_GUARDTRANSITION shape and the nesting "
-             "around it are regenerated from TEMPLATEInternals.cs into Gen/CsTmpl.v; the real <Name>Internals.cs is tokenised per class / per Trigger<Event> override "
-             "and compared with CsSM.cs_handler, and independently executed by a small Python token interpreter against a Python reading of the property; "
-             "context/interface declarations extracted by regex and counted. ENGINE BRIDGE (C10_handlers_engine, C10_handler_reads, "
-             "C10_block_is_shipped): for every table with well-formed rows the file the engine model's pipeline (C16) writes from the transition "
-             "block of the SHIPPED TEMPLATEInternals.cs (Model/CsRender.cs_block16: source-derived lines read into the template syntax, checked "
-             "to render back) is one class text per cs_classes, one Trigger<e> override per cs_handlers, and the PER_GUARDTRANSITION lines of "
-             "that override read one by one (without indentation) as the C# statements of the tokens cs_handler t s e; that text is found "
-             "verbatim in the real <Name>Internals.cs on every case."),
-    "note": ("No C# compiler: the statements are about the emitted token structure and the model's reading of Exit<S>()/Enter<T>() (checked textually by the translator), "
-             "not about csc accepting the files. Context declarations are proved for names, parameter lists and multiplicities; the triples are read out of the real files by regex and compared with Decls.decls_file. "
-             "The class/handler nesting (PER_STATETRANSITION / PER_EVENTTRANSITION) is now part of the engine bridge (cs_class_text / cs_method_text are the reference expansion of the shipped block, C10_handlers_engine); translator/cstmpl.py's classification of the PER_GUARDTRANSITION lines is cross-checked by C10_handler_reads (a wrong Gen/CsTmpl.v makes that proof fail)."),
+    "technique": "Coq proof (handler token expansion from the template shape, brace-parser lemma, helper methods as source-derived statement IR with a semantics, whole-machine run vs the table interpreter) + execution of the REAL generated C# text by a statement interpreter",
+    "text": ("Theorems C10_sem / C10_init (for every well-formed table, event sequence and guard oracle: constructing the machine -- constructor, Reset(), Enter<StateT>() "
+             "executed from the IR that translator/cstmpl.py parses out of the templates -- runs the first state's entry hook exactly once, and every Trigger<e>, dispatched to "
+             "the current state object's class, makes exactly the interpreter's callbacks and leaves estate at its state; a self transition is exit then entry), C10_handlers "
+             "(per handler, Exit<S>()/Enter<T>() executed from their IR), C10_handlers_listed_only, C10_state_classes, C10_context_decls. Tie: handler token shape, helper-method "
+             "IR and the Trigger<Event> shape regenerated into Gen/CsTmpl.v on every run; the real <Name>Internals.cs is tokenised and compared with CsSM.cs_handler; "
+             "the real Context/Internals/StateMachine files are PARSED AND EXECUTED (translator/csmini.py: classes, fields, virtual dispatch, generics, new/is/as, "
+             "if/return, assignments, calls; non-threaded preprocessor branch) under a recording context for random event sequences and guard bits and compared with a "
+             "Python reading of the property; extracted run_cs = extracted table_interp_quiet; declaration triples vs Decls.decls_file. "
+             "ENGINE BRIDGE (C10_handlers_engine, C10_handler_reads, C10_block_is_shipped): for every table with well-formed rows the file the engine model's pipeline (C16) writes from the transition block of the SHIPPED TEMPLATEInternals.cs (Model/CsRender.cs_block16: source-derived lines read into the template syntax, checked to render back) is one class text per cs_classes, one Trigger<e> override per cs_handlers, and the PER_GUARDTRANSITION lines of that override read one by one (without indentation) as the C# statements of the tokens cs_handler t s e; that text is found verbatim in the real <Name>Internals.cs on every case."),
+    "note": ("No C# compiler exists here: 'executed' means executed by the harness's own interpreter of the C# subset the generated files use (it refuses anything outside "
+             "the subset); member types and C# name lookup are not checked by anything. The threaded configuration (SM_THREAD_1: queue + dispatch thread) is not modelled; "
+             "the class/handler nesting (PER_STATETRANSITION / PER_EVENTTRANSITION) is modelled in closed form, its template shape is checked by the translator."),
 }
 RULE = ("random well-formed tables (as C08) incl. colliding signature concatenations; C# primitive member types with (trailing) defaults; StateMachineThread 0/1/absent; "
-        "every listed (state,event) handler executed under random guard bits. non-trivial = some handler has more than one row or a row without guard/target; "
-        "distinct = (table, interface)")
-ASSUMPTIONS = ["forallb row_ok T (identifier domain as C08)", "defaults only on a trailing run of an event's members; member types are C# primitive types",
-               "identifiers are not C# keywords / names fixed by the template (Event is a C# keyword only in lower case; IDispatchable, <Name>State ...)"]
+        "random event sequences (0..12 events, incl. events the table never mentions) with arguments and random guard bits executed on the real generated text; "
+        "every listed (state,event) handler additionally executed in isolation under six guard vectors. non-trivial = some handler has more than one row or a row "
+        "without guard/target; distinct = (table, interface)")
+ASSUMPTIONS = ["wf_table T (identifier domain as C08)", "defaults only on a trailing run of an event's members; member types are C# primitive types",
+               "non-threaded configuration (the #else branch of SM_THREAD_1) for the executed behaviour",
+               "identifiers are not C# keywords / names fixed by the template (IDispatchable, <Name>State ...)"]
 TRUSTED = ["Coq 8.16.1 kernel (coqc; coqchk in the thorough tier)", "axioms: none",
-           "translator/cstmpl.py (regex classification of the PER_GUARDTRANSITION lines and of the surrounding class/handler nesting, fail closed)",
-           "extraction: ExtrOcamlBasic + ExtrOcamlNativeString; ocaml/cmds_sm.ml", "harness C# tokenizer (brace matching + statement regexes)",
-           "modelled, not verified: C# semantics of if/return/blocks, virtual dispatch to the current state object's Trigger<Event>; no C# compiler is available"]
+           "translator/cstmpl.py + translator/csmini.py (regex classification of the PER_GUARDTRANSITION lines and of the class/handler nesting; parser of the helper methods into the statement IR; fail closed)",
+           "extraction: ExtrOcamlBasic + ExtrOcamlNativeString; ocaml/cmds_sm.ml", "harness C# tokenizer and the csmini interpreter (its reading of new/is/as/virtual calls/generics IS the assumed C# semantics)",
+           "modelled, not verified: C# semantics of the statement subset; no C# compiler is available"]
 ALLOWED_AXIOMS = []
 
 NAME = "X"
@@ -218,7 +219,88 @@ def check_decls(table, spec, files):
     return None
 
 
-def one_case(ctx, table, spec, rng_bits):
+def exec_real(files, table, spec, evs_with_args, bits):
+    """Execute the REAL generated text (context, internals, state machine; non-threaded branch of the preprocessor) with the
+    statement interpreter of translator/csmini.py: construct the machine with a recording context, call Trigger<e>(args) per
+    event, read every Is<State>().  Returns ([(callbacks, states whose Is..() is true)], None) or (None, why)."""
+    st, _ev, _ac, gu = smlib.names(table)
+    texts = []
+    for f in ("%sContext.cs", "%sInternals.cs", "%sStateMachine.cs"):
+        texts.append(re.sub(r"(?m)^\s*#define SM_THREAD_\w+\s*$", "", files[f % NAME]))
+    try:
+        classes = csmini.parse_program(texts, {"SM_THREAD_0"})
+    except csmini.CsError as e:
+        return None, "the generated C# is outside the interpreted subset: %s" % e
+    trace, count = [], [0]
+
+    def cb(name, args):
+        trace.append((name, [(a.cls, dict(a.fields)) if isinstance(a, csmini.Obj) else a for a in args]))
+        if name in gu:
+            i = count[0]
+            count[0] += 1
+            return bits[i] if i < len(bits) else False
+        return None
+    it = csmini.Interp(classes)
+    smc = "%sStateMachine" % NAME
+    steps = []
+    try:
+        sm = it.new(smc, [csmini.External(cb)])
+
+        def snapshot():
+            iss = [s for s in st if it.invoke(it.find_method(smc, "Is" + s), sm, None, [])]
+            steps.append((list(trace), iss))
+            del trace[:]
+        snapshot()
+        for ev, args in evs_with_args:
+            m = it.find_method(smc, "Trigger" + ev)
+            if m is None:
+                return None, "no Trigger%s in the generated state machine" % ev
+            it.invoke(m, sm, None, list(args))
+            snapshot()
+    except csmini.CsError as e:
+        return None, "executing the generated C# raised: %s (after %d steps; callbacks so far %r)" % (e, len(steps), [n for n, _a in trace])
+    return steps, None
+
+
+def quiet_interp(table, evs, bits):
+    return [([c for c in cbs if c[0] != "notrans"], s) for cbs, s in smlib.py_table_interp(table, evs, bits)]
+
+
+def exec_case(ctx, files, table, spec, evs_with_args, bits):
+    """The property on the executed real text; returns a failure description or None."""
+    evs = [e for e, _a in evs_with_args]
+    want = quiet_interp(table, evs, bits)
+    if ctx.km is not None:
+        r = ctx.km.call("run_cs", table, evs, smlib.bits_arg(bits))
+        q = smlib.km_steps(ctx.km.call("table_interp_quiet", table, evs, smlib.bits_arg(bits)))
+        if q != want:
+            ctx.tie_broken("Spec table_interp_quiet vs the Python reading of the property", {"table": table, "events": evs, "bits": bits})
+        if r[0] != b"ok" or smlib.km_steps(r[1]) != q:
+            ctx.tie_broken("extracted CsSM.run_cs differs from extracted table_interp_quiet although C10_sem is proved", {"table": table, "events": evs, "bits": bits})
+    steps, why = exec_real(files, table, spec, evs_with_args, bits)
+    if steps is None:
+        return why
+    members = {nm: [m[0] for m in mem] for nm, mem in spec["structs"]}
+    for i, ((tr, iss), (cbs, st)) in enumerate(zip(steps, want)):
+        exp = []
+        for kind, nm, e in cbs:
+            exp.append({"guard": nm, "action": nm, "exit": "On%sExit" % nm, "entry": "On%sEntry" % nm}[kind])
+        got = [n for n, _a in tr]
+        where = "construction" if i == 0 else "Trigger%s (event %d)" % (evs[i - 1], i)
+        if got != exp:
+            return "%s: the generated C# calls %r, the table says %r" % (where, got, exp)
+        if iss != [st]:
+            return "%s: Is<State>() true for %r, the table says %r" % (where, iss, st)
+        if i > 0:
+            ev, args = evs_with_args[i - 1]
+            payload = dict(zip(members.get(ev, []), args))
+            for (n, a), (kind, _nm, _e) in zip(tr, cbs):
+                if kind == "action" and (len(a) != 1 or a[0][0] != ev or {k: v for k, v in a[0][1].items() if k in payload} != payload):
+                    return "%s: action %s received %r, triggered %s%r" % (where, n, a, ev, payload)
+    return None
+
+
+def one_case(ctx, table, spec, rng_bits, evs_with_args=None):
     with scratch() as d:
         kj.generate("cs", d, table=table, iface=smlib.build_iface(spec), name=NAME)
         files = {}
@@ -276,6 +358,10 @@ def one_case(ctx, table, spec, rng_bits):
     r = check_decls(table, spec, files)
     if r:
         return r, "cs-declarations"
+    if evs_with_args is not None:
+        r = exec_case(ctx, files, table, spec, evs_with_args, rng_bits[0] + rng_bits[1])
+        if r:
+            return r, "cs-executed-behaviour"
     return None, None
 
 
@@ -287,7 +373,13 @@ def gen_case(rng, i):
         tags["StateMachineThread"] = c
     spec = smlib.random_iface_spec(rng, table, "cs", tags, extra_events=rng.choice([0, 0, 1]))
     bits = [[rng.random() < 0.5 for _ in range(8)] for _ in range(4)] + [[False] * 8, [True] * 8]
-    return table, spec, bits
+    evnames = smlib.names(table)[1] + [nm for nm, _m in spec["structs"] if nm not in smlib.names(table)[1]]
+    evs = []
+    for _ in range(rng.randint(0, 12)):
+        e = rng.choice(evnames)
+        nargs = next((len(mem) for nm, mem in spec["structs"] if nm == e), 0)
+        evs.append([e, [rng.randint(0, 99) for _ in range(nargs)]])
+    return table, spec, bits, evs
 
 
 def run(ctx):
@@ -300,8 +392,8 @@ def run(ctx):
     smlib.ttmodel_batch(ctx, ctx.budget(400, 5000))   # the table model this property's model is built on
     n = ctx.budget(2500, 30000)
     for i in range(n):
-        table, spec, bits = gen_case(ctx.rng, i)
-        fail, key = one_case(ctx, table, spec, bits)
+        table, spec, bits, evs = gen_case(ctx.rng, i)
+        fail, key = one_case(ctx, table, spec, bits, evs)
         tags = smlib.shape_tags(table)
         ctx.case((json.dumps(table), json.dumps(spec, sort_keys=True)), nontrivial=bool(tags & {"multi_row_group", "row_without_target", "target_only_state"}))
         for tg in tags:
@@ -309,8 +401,9 @@ def run(ctx):
         if i < 2:
             ctx.sample({"table": table, "iface": spec})
         if fail:
-            small = smlib.shrink_rows(table, lambda t: one_case(ctx, t, spec, bits)[0] is not None)
-            ctx.violation(fail, {"table": small, "iface": spec, "bits": bits, "finding_key": key, "original_table": table})
+            small = smlib.shrink_rows(table, lambda t: one_case(ctx, t, spec, bits, [ev for ev in evs if ev[0] in smlib.names(t)[1] + [nm for nm, _m in spec["structs"]]])[0] is not None)
+            evs = [ev for ev in evs if ev[0] in smlib.names(small)[1] + [nm for nm, _m in spec["structs"]]]
+            ctx.violation(fail, {"table": small, "iface": spec, "bits": bits, "events": evs, "finding_key": key, "original_table": table})
 
 
 def replay(ctx, data):
@@ -318,7 +411,7 @@ def replay(ctx, data):
         print(json.dumps(data.get("no_longer_checks"), indent=1)[:3000])
         return False
     bits = data.get("bits") or [[False] * 8, [True] * 8, [True, False] * 4, [False, True] * 4]
-    fail, _key = one_case(ctx, data["table"], data["iface"], bits)
+    fail, _key = one_case(ctx, data["table"], data["iface"], bits, data.get("events", []))
     if fail:
         print("replay:", fail)
     return fail is None
